@@ -84,9 +84,9 @@ def initial_terms(h, w):
     out = []
     for k in range(0, h + 3):
         t = Term(h, w)
-        for i in range(k):
-            t.feed(("%d" % (i % 10)) * min(w, 1 + i % w) + "\r\n")
-        out.append(({"kind": "printed_lines", "k": k}, t))
+        text = "".join(("%d" % (i % 10)) * min(w, 1 + i % w) + "\r\n" for i in range(k))
+        t.feed(text)
+        out.append(({"kind": "printed_lines", "k": k, "bytes": text}, t))
     for row in range(0, h):
         t = Term(h, w)
         for y in range(h):
@@ -143,9 +143,31 @@ def show_arr(arr):
     return ["".join(c for c, _ in r) for r in arr]
 
 
-def check_render(acc, world, st, T, hist0, arr, cur, case):
+def pyte_agrees(acc, term, init_bytes, written, case):
+    """Second opinion on the terminal model: the same bytes fed to pyte.HistoryScreen must give the same screen, cursor and scrollback."""
+    import pyte
+
+    screen = pyte.HistoryScreen(term.w, term.h, history=1000, ratio=0.001)
+    stream = pyte.Stream(screen)
+    stream.feed(init_bytes)
+    stream.feed(written)
+    rows = [line.rstrip() for line in screen.display]
+    mine = [r.rstrip() for r in term.text_rows()]
+    px = min(screen.cursor.x, term.w - 1)
+    hist = ["".join(line[x].data for x in range(term.w)).rstrip() for line in screen.history.top]
+    mine_hist = ["".join(c for c, _ in r).rstrip() for r in term.scrollback]
+    if rows != mine or (screen.cursor.y, px) != (term.r, term.c) or hist != mine_hist:
+        acc.failure("harness:terminal_model_disagrees_with_pyte", case, "pyte %r cursor %r history %r; model %r cursor %r history %r" % (rows, (screen.cursor.y, px), hist, mine, (term.r, term.c), mine_hist))
+        return False
+    acc.add("pyte_agreements")
+    return True
+
+
+def check_render(acc, world, st, T, hist0, arr, cur, case, pyte_ctx=None):
     """Runs one render from state st; returns (new state, new T) or None."""
     term = world.load(st)
+    if pyte_ctx is not None:
+        world.proxy.log = []
     h, w = term.h, term.w
     before_sb = len(term.scrollback)
     before_screen = [tuple(r) for r in term.main]
@@ -201,7 +223,13 @@ def check_render(acc, world, st, T, hist0, arr, cur, case):
     if term.st.atts() != ():
         acc.failure("C07:graphic_state_left_set", case, repr(term.st.atts()))
         return None
-    return world.save(), T2
+    if pyte_ctx is not None:
+        written = pyte_ctx[1] + "".join(world.proxy.log)
+        world.proxy.log = None
+        if pyte_ctx[2]:
+            pyte_agrees(acc, term, pyte_ctx[0], written, case)
+        return world.save(), T2, written
+    return world.save(), T2, ""
 
 
 def check_exit(acc, world, st, T, hist0, case):
@@ -230,13 +258,16 @@ def check_exit(acc, world, st, T, hist0, case):
 
 def explore(args):
     tier, seed, h, w, keep, hide, depth, npat, init_lo, init_hi = args
+    thorough = tier == "thorough"
     acc = Acc(seed=seed, sample_stride=3571)
     world = World(keep, hide)
     inits = initial_terms(h, w)[init_lo:init_hi]
     for desc, term0 in inits:
-        base = {"size": [h, w], "keep_last_line": keep, "hide_cursor": hide, "initial": desc}
+        base = {"size": [h, w], "keep_last_line": keep, "hide_cursor": hide, "initial": {k: v for k, v in desc.items() if k != "bytes"}}
         T0 = term0.r
         hist0 = history_lines(term0, T0)
+        use_pyte = desc["kind"] == "printed_lines"
+        world.proxy.log = [] if use_pyte else None
         try:
             st0 = world.enter(term0.copy())
         except Exception as ex:  # noqa
@@ -246,8 +277,10 @@ def explore(args):
             acc.failure("C07:top_usable_row", dict(base, at="enter"), "%r != %r" % (world.win.top_usable_row, T0))
             continue
         acc.state(hash((h, w, keep, hide, str(desc))))
+        entered = "".join(world.proxy.log) if use_pyte else ""
+        world.proxy.log = None
 
-        def rec(st, T, hist, step):
+        def rec(st, T, hist, step, written=entered):
             check_exit(acc, world, st, T, hist0, dict(base, history=hist))
             if step >= depth:
                 return
@@ -255,12 +288,17 @@ def explore(args):
                 case = dict(base, history=hist, render=show_arr(arr), cursor=list(cur))
                 acc.case(T + len(arr) > h or step > 0, key=(h, w, keep, hide, str(desc), tuple(map(str, hist)), arr, cur), sample=case)
                 acc.transitions += 1
-                res = check_render(acc, world, st, T, hist0, arr, cur, case)
+                # pyte second opinion: every render in the thorough tier, every 5th in quick (and only for initial screens that
+                # were produced by printing, which pyte can reproduce from bytes)
+                pc = None
+                if use_pyte:
+                    pc = (desc["bytes"], written, thorough or acc.n % 5 == 0)
+                res = check_render(acc, world, st, T, hist0, arr, cur, case, pc)
                 if res is None:
                     continue
-                new, T2 = res
+                new, T2, written2 = res
                 acc.state(hash((h, w, keep, hide, str(desc), new[1].canon(), WH.canon_window(new[0]))))
-                rec(new, T2, hist + [[show_arr(arr), list(cur)]], step + 1)
+                rec(new, T2, hist + [[show_arr(arr), list(cur)]], step + 1, written2)
 
         rec(st0, T0, [], 0)
     world.close()
